@@ -253,22 +253,59 @@ func c15cChain(c *Ctx) {
 	}
 	ok := false
 	got := ""
-	for _, call := range callsToIn(es, rc) {
+	// every call, not one of them (an extra fast path with a constant flag exports local scripts)
+	for i, call := range callsToIn(es, rc) {
 		a := call.Common().Args
-		got = c.term(es, a[3])
-		if got == `($1.Scope == "GLOBAL")` && c.term(es, a[2]) == "$1.Name.Value" {
-			ok = true
+		g := c.term(es, a[3])
+		this := g == `($1.Scope == "GLOBAL")` && c.term(es, a[2]) == "$1.Name.Value"
+		if i == 0 {
+			ok = this
+		} else {
+			ok = ok && this
+		}
+		if !this || got == "" {
+			got = g
 		}
 	}
 	c.Check(ok, "emitScriptStatement/passes-own-scope", c.W.FuncPos(es), "the entry label's scope is the scope of the script being emitted", "emitScriptStatement passes "+got+" as the export flag; expected (scriptStmt.Scope == GLOBAL) of the very script it emits (inline map scripts carry LOCAL)")
 	ok2 := false
-	for _, call := range callsToIn(rc, rl) {
+	for i, call := range callsToIn(rc, rl) {
 		a := call.Common().Args
-		if c.term(rc, a[1]) == "$2" && c.term(rc, a[2]) == "$3" {
-			ok2 = true
+		this := c.term(rc, a[1]) == "$2" && c.term(rc, a[2]) == "$3"
+		if i == 0 {
+			ok2 = this
+		} else {
+			ok2 = ok2 && this
 		}
 	}
 	c.Check(ok2, "renderChunks/passes-scope-on", c.W.FuncPos(rc), "renderChunks hands script name and export flag to renderLabel", "renderChunks does not pass (scriptName, isGlobal) on to renderLabel")
+	// the scope of a node is decided where the node is parsed: Scope / IsGlobal are stored only
+	// into a node the storing function has just made (a later pass that "corrects" the scope of
+	// some statements would not be seen by C15.a, which reads the value at the parser's return)
+	nStores := 0
+	for _, f := range c.W.Funcs {
+		if isTestFunc(c.W, f) {
+			continue
+		}
+		instrs(f, func(in ssa.Instruction) {
+			st, ok := in.(*ssa.Store)
+			if !ok {
+				return
+			}
+			_, t, fld, ok := fieldAddrOf(st.Addr)
+			if !ok || (fld != "Scope" && fld != "IsGlobal") {
+				return
+			}
+			n := namedOf(deref(t))
+			if n == nil || n.Obj().Pkg() == nil || n.Obj().Pkg().Name() != "ast" {
+				return
+			}
+			nStores++
+			_, fresh := rootValue(st.Addr).(*ssa.Alloc)
+			c.Check(fresh, fmt.Sprintf("%s/scope-store[%s.%s]#%d", c.W.FuncKey(f), n.Obj().Name(), fld, nStores), c.W.Pos(st.Pos()), "the scope is stored into a node under construction", f.Name()+" changes the "+fld+" of an existing "+n.Obj().Name()+": the scope written in the source (or the documented default) would be overridden after parsing")
+		})
+	}
+	c.Check(nStores >= 5, "scope-stores/scanned", "-", fmt.Sprintf("%d stores to Scope / IsGlobal fields of AST nodes", nStores), fmt.Sprintf("expected at least 5 stores to Scope / IsGlobal, found %d", nStores))
 }
 
 func sortedPlus(ls []string) []string {
